@@ -779,6 +779,13 @@ func genC07(g *gen, c *sim.Case, tier string) {
 		}
 		c.Tasks = append(c.Tasks, task)
 	}
+	if c.Knobs["backend"] == 1 && r.Chance(1, 5) {
+		// a read (a poll of a waiter, mostly) is lost with its connection, and the dial that
+		// follows fails with an error that wraps a context error of the dialer's own
+		for i := 0; i < 1+r.Intn(2); i++ {
+			c.Faults = append(c.Faults, sim.Fault{Seam: "net", Kind: "get_lost", Ord: int64(1 + r.Intn(25))})
+		}
+	}
 	if c.Knobs["backend"] == 1 && r.Chance(1, 4) {
 		// the server is reachable but answers with error replies for a while (once or twice)
 		task := sim.Task{Name: "zf"}
